@@ -426,6 +426,7 @@ fn run(r: &mut Report, sc: &Scenario, seed: u64) {
         return;
     }
     let discarded = otlp.metric_source().event_discarded() - discarded_before;
+    col.settle();
     let records = col.records();
     r.observe("requests-recorded", records.len() as u64);
 
